@@ -16,7 +16,16 @@ gn valid <T> all | v,v,…               IsValid (all = every value of an 8-bit 
 gn str <T> all | v,v,…                 String()                        -> s,s,…
 gn strvals <T>                         StringValues()                  -> s,s,… | -
 gn parse <T> <hex>                     Parse<T>/ParseString/ParseGeneric of the string         -> ok:<v> | err
+gn parsable <Trait>*                   -parsableByTraits                                       -> ok
+gn col <T> <Trait> <dyn type> <fam>    trait column (column order); fam = ustr nstr s<bits> u<bits> none -> ok
+gn const … <form> <tval>*              trait constants of the line: s:<hex> i:<int> b:t|f
+gn trait <T> <Trait> v,v,…             accessor                        -> rendered constants
+gn ptrait <T> <Trait> <tval>           Parse<T>(typed trait constant)  -> ok:<v> | err
+gn marshal <T> <json|text|yaml> v,…    encoding, read back as a plain string                   -> s,s,…
+gn rt <T> <codec> v,…                  decode(encode v)                -> ok:<v>,…
+gn dec <T> <codec> <doc>               doc = s:<hex> string | n:<literal> number | o:<hex> other scalar -> ok:<v> | err
 ```
+opt flags: `c` -caseInsensitive, `J` -json=false, `Y` -yaml=false, `T` -text=false.
 -/
 namespace Drv.Genum
 open _root_.Genum
@@ -25,7 +34,7 @@ structure St where
   opts : Options := {}
   types : List TypeDecl := []
   consts : List Const := []      -- reversed source order while assembling
-  outs : List (TypeDecl × GenOut) := []
+  outs : List (TypeDecl × GenFull) := []
   status : String := "no-gen"
 
 def kindOf : String → Option IntKind
@@ -53,6 +62,34 @@ def unhexAux : List Char → Option (List Char)
 def unhex (w : String) : Option String :=
   if w = "-" then some "" else (unhexAux w.toList).map String.ofList
 
+def famOf (w : String) : Option Family :=
+  if w = "ustr" then some .ustr else if w = "nstr" then some .nstr else if w = "none" then some .none
+  else match w.toList with
+    | 's' :: r => (String.ofList r).toNat?.map Family.sint
+    | 'u' :: r => (String.ofList r).toNat?.map Family.uint
+    | _ => none
+
+def scalarOf (w : String) : Option Scalar :=
+  match w.splitOn ":" with
+  | ["s", h] => (unhex (if h = "" then "-" else h)).map Scalar.str
+  | ["i", n] => n.toInt?.map Scalar.int
+  | ["b", b] => some (.bool (b == "t"))
+  | _ => none
+
+def hexOfString (s : String) : String :=
+  let d := fun (n : Nat) => Char.ofNat (if n < 10 then 48 + n else 87 + n)
+  String.ofList (s.toList.flatMap (fun c => [d (c.toNat / 16), d (c.toNat % 16)]))
+
+def showScalar : Scalar → String
+  | .str s => "s:" ++ hexOfString s
+  | .int i => s!"i:{i}"
+  | .bool b => "b:" ++ (if b then "t" else "f")
+  | .other r => "o:" ++ r
+
+def showRes : Option Int → String
+  | some v => s!"ok:{v}"
+  | none => "err"
+
 def joinComma (xs : List String) : String := if xs.isEmpty then "-" else ",".intercalate xs
 
 def rangeOf (k : IntKind) : List Int :=
@@ -66,27 +103,44 @@ def valsArg (k : IntKind) (w : String) : Option (List Int) :=
 
 def handle (st : St) (ws : List String) : St × String :=
   match ws with
-  | ["opt", fl] => ({ st with opts := { caseInsensitive := fl.toList.contains 'c' } }, "ok")
+  | ["opt", fl] =>
+    let cs := fl.toList
+    let o : Options := { caseInsensitive := cs.contains 'c', json := !(cs.contains 'J'),
+                         yaml := !(cs.contains 'Y'), text := !(cs.contains 'T'), parsable := st.opts.parsable }
+    ({ st with opts := o }, "ok")
+  | "parsable" :: names =>
+    let o : Options := { st.opts with parsable := names }
+    ({ st with opts := o }, "ok")
   | ["type", t, k] =>
     match kindOf k with
-    | some k => ({ st with types := st.types ++ [⟨t, k⟩] }, "ok")
+    | some k => ({ st with types := st.types ++ [{ name := t, kind := k }] }, "ok")
     | none => (st, "bad-op")
-  | ["const", t, name, v, d, _form] =>
-    match v.toInt? with
-    | some v => ({ st with consts := ⟨name, t, v, d == "d"⟩ :: st.consts }, "ok")
+  | ["col", t, name, ty, fam] =>
+    match famOf fam with
+    | some fam =>
+      ({ st with types := st.types.map (fun td => if td.name == t then { td with cols := td.cols ++ [⟨name, ty, fam⟩] } else td) }, "ok")
     | none => (st, "bad-op")
+  | "const" :: t :: name :: v :: d :: _form :: tv =>
+    match v.toInt?, tv.mapM scalarOf with
+    | some v, some tv => ({ st with consts := { name := name, ty := t, val := v, deprecated := d == "d", tvals := tv } :: st.consts }, "ok")
+    | _, _ => (st, "bad-op")
   | ["block"] | ["skip"] => (st, "ok")
   | "other" :: _ => (st, "ok")
   | ["gen"] =>
     let f : FileDef := ⟨st.types, st.consts.reverse⟩
-    let outs := st.types.map (fun t => (t, genType st.opts f t.name))
-    let status := if outs.any (fun o => o.2.dupLowerCase) then "err:compile" else "ok"
+    let rs := st.types.map (fun t => (t, genFull st.opts f t))
+    let gens := rs.any (fun r => match r.2 with
+      | .error .dupCase => false | .error _ => true | .ok _ => false)
+    let comp := rs.any (fun r => match r.2 with | .error .dupCase => true | _ => false)
+    let status := if gens then "err:generate" else if comp then "err:compile" else "ok"
+    let outs := rs.filterMap (fun r => match r.2 with | .ok g => some (r.1, g) | .error _ => none)
     ({ st with outs := outs, status := status }, status)
   | op :: t :: rest =>
     if st.status ≠ "ok" then (st, "no-gen") else
     match st.outs.find? (fun o => o.1.name == t) with
     | none => (st, "no-type")
-    | some (td, g) =>
+    | some (td, gf) =>
+      let g := gf.base
       match op, rest with
       | "values", [] => (st, joinComma (g.values.map toString))
       | "strvals", [] => (st, joinComma g.stringValues)
@@ -100,8 +154,49 @@ def handle (st : St) (ws : List String) : St × String :=
         | none => (st, "bad-op")
       | "parse", [w] =>
         match unhex w with
-        | some s => (st, match g.parseString s with | some v => s!"ok:{v}" | none => "err")
+        | some s => (st, showRes (g.parseString s))
         | none => (st, "bad-op")
+      | "trait", [tr, w] =>
+        match gf.traits.find? (fun x => x.name == tr), valsArg td.kind w with
+        | some x, some vs => (st, joinComma (vs.map (fun v => showScalar (x.get v).v)))
+        | none, _ => (st, "no-trait")
+        | _, _ => (st, "bad-op")
+      | "ptrait", [tr, w] =>
+        match gf.traits.find? (fun x => x.name == tr), scalarOf w with
+        | some x, some sc => (st, showRes (g.parse ⟨x.ty, sc⟩))
+        | none, _ => (st, "no-trait")
+        | _, _ => (st, "bad-op")
+      | "marshal", [_codec, w] =>
+        match valsArg td.kind w with
+        | some vs => (st, joinComma (vs.map gf.marshal))
+        | none => (st, "bad-op")
+      | "rt", [codec, w] =>
+        match valsArg td.kind w with
+        | some vs =>
+          let dec := fun (s : String) => match codec with
+            | "json" => gf.unmarshalJSON {} (.str s)
+            | "yaml" => gf.unmarshalYAML {} s
+            | _ => gf.unmarshalText s
+          (st, joinComma (vs.map (fun v => showRes (dec (gf.marshal v)))))
+        | none => (st, "bad-op")
+      | "dec", [codec, doc] =>
+        let kindPay := match doc.splitOn ":" with
+          | [k, p] => some (k, p)
+          | _ => none
+        match kindPay with
+        | none => (st, "bad-op")
+        | some (k, p) =>
+          let text : Option String := if k = "n" then some p else unhex (if p = "" then "-" else p)
+          match text with
+          | none => (st, "bad-op")
+          | some text =>
+            match codec with
+            | "json" =>
+              let jd : JDoc := if k = "s" then .str text else if k = "n" then (match p.toInt? with | some i => .num i | none => .other) else .other
+              (st, showRes (gf.unmarshalJSON {} jd))
+            | "yaml" => (st, showRes (gf.unmarshalYAML {} text))
+            | "text" => (st, showRes (gf.unmarshalText text))
+            | _ => (st, "bad-op")
       | _, _ => (st, "bad-op")
   | _ => (st, "bad-op")
 
